@@ -85,7 +85,19 @@ class Emitter:
                 out.append("%syyterminate();" % indent)
             elif k == "begin":
                 if in_yylex:
-                    out.append("%syybegin(%d); vf_evi(%s, \"B\", yystart());" % (indent, op[1], C))
+                    # the argument is an expression, not always a literal: a macro
+                    # implementation must parenthesise it
+                    sc = op[1]
+                    form = util.Rng(self.seed, "begin", repr(ops)).below(4) if self.rng else 0
+                    if form == 1 and sc > 0:
+                        arg = "%d + %d" % (sc - sc // 2, sc // 2)
+                    elif form == 2:
+                        arg = "vf_zero ? %d : %d" % (sc + 1, sc)
+                    elif form == 3:
+                        arg = "%d - vf_zero" % sc
+                    else:
+                        arg = "%d" % sc
+                    out.append("%syybegin(%s); vf_evi(%s, \"B\", yystart());" % (indent, arg, C))
                 else:
                     out.append("%s%s; vf_evi(%s, \"B\", %s);" % (
                         indent, self.drv_begin(op[1]), C, self.drv_start()))
@@ -356,6 +368,8 @@ class Emitter:
 
         L.append("%top{")
         L.append('#include "vf_rt.h"')
+        if o.get("use_read"):
+            L.append("#define read(fd,buf,n) vf_sys_read((fd),(buf),(n))")
         if fl.c99:
             L.append("struct yyguts_t;")
             L.append("static int yyread(char *buf, size_t max_size, struct yyguts_t *yyscanner);")
